@@ -141,6 +141,7 @@ type FnCtx struct {
 	eptr        map[string]types.Type // element sorts for which pointers to slice elements are created in this function
 	eptrLeaked  map[string]bool
 	curClosure  *Closure // closure being called by contract (for naming its captured variables)
+	strIters    map[*ssa.Range]*Term // strings ranged over by rune
 	loopDefer   bool // some defer statement sits inside a loop
 	splitSpec   bool // a contract of this function uses splitCount/splitPart: strings.Split gets its axiomatic model
 	staleGuards map[string]string // guard clauses that could not be elaborated at some site (clause -> message)
